@@ -167,6 +167,7 @@ class CFG:
             return outs
         if isinstance(st, ast.Match):
             subj = self._new("stmt", ast.Expr(value=st.subject), st)
+            self.node_of_stmt[st] = subj
             self._connect(preds, subj)
             outs = []
             for case in st.cases:
